@@ -7,7 +7,7 @@ from sessions import validate_cases
 
 # include graph used by the bounded model (files A and B include each other and A itself)
 FILES = {
-    "A": [("set", "v1", "w2"), ("include", "A", ""), ("include", "B", "")],
+    "A": [("if", "T", ""), ("set", "v1", "w2"), ("else", "", ""), ("set", "v2", "w1"), ("endif", "", ""), ("include", "A", ""), ("include", "B", "")],
     "B": [("if", "F", ""), ("bind", "s2", "f1"), ("else", "", ""), ("keymap", "k2", ""), ("bind", "s1", "f2"),
           ("endif", "", ""), ("include", "A", "")],
 }
@@ -172,6 +172,8 @@ def run(rep, tier, seed):
         evs = bycase.get(cid, [])
         res = [e for e in evs if e["ev"] in ("parsed", "panic", "timeout", "died")]
         if not res:
+            if "_skipped" in bycase:
+                continue        # shard abandoned after too many hangs / deaths (each of them is reported)
             raise Infra("no result for case " + cid)
         e = res[-1]
         prog = [{"d": d, "a": a, "b": b} for (d, a, b) in p]
@@ -186,7 +188,7 @@ def run(rep, tier, seed):
     rep.traces = len(cases)
     rep.nontrivial = nontriv
     rep.samples = [{"program": meta[cases[i]["id"]][0], "rendered": meta[cases[i]["id"]][2], "effects": per[cases[i]["id"]][0][0]["eff"]}
-                   for i in (0, len(cases) // 2, len(cases) - 1)]
+                   for i in (0, len(cases) // 2, len(cases) - 1) if cases[i]["id"] in per]
     open_ids = [k["id"] for k in open_findings("C13")]
     tvwd = os.path.join(wd, "tv")
     rejected = validate_cases(rep, tvwd, "MC_InputrcTrace", "MC_InputrcTrace.cfg", per, label="InputrcTrace",
